@@ -281,6 +281,9 @@ CLASS_PRED = {'number': 'ISNUMBER', 'text': 'ISTEXT', 'logical': 'ISLOGICAL', 'b
 pred_value = st.one_of(
     st.tuples(st.just('number'), st.one_of(st.integers(-10 ** 9, 10 ** 9), st.floats(-1e9, 1e9, allow_nan=False), st.sampled_from([0, 1, -1, 0.0, 2.5]))),
     st.tuples(st.just('text'), st.one_of(st.text(max_size=6), st.sampled_from(['', '12', 'TRUE', '#N/A', ' ', '0']))),
+    # host values whose class merely derives from int / float / str
+    st.tuples(st.just('number'), st.one_of(st.integers(-9, 9).map(lambda k: {'$': 'sub', 'v': ['int', k]}), st.integers(-40, 40).map(lambda k: {'$': 'sub', 'v': ['float', k / 4.0]}))),
+    st.tuples(st.just('text'), st.sampled_from(['', 'abc', '12']).map(lambda t: {'$': 'sub', 'v': ['str', t]})),
     st.tuples(st.just('logical'), st.booleans()),
     st.tuples(st.just('blank'), st.none()),
     st.tuples(st.just('error'), st.sampled_from(CODES8).map(err)),
